@@ -126,6 +126,10 @@ def gen_special_pair(rng, which):
         a = c14.gen_iqr_case(rng)
         k = rng.choice(["negate"] * 5 + ["scale"])
         a2, b, ren, must = transform(rng, a, k, target=0)
+    elif which == "tiny":  # as many rows as columns of the association table
+        a = c14.gen_tiny_case(rng)
+        k = rng.choice(["perm_rows", "perm_cols", "rename_feat", "copy", "copy", "perm_x_only"])
+        a2, b, ren, must = transform(rng, a, k)
     else:
         a = c14.gen_two_measure_case(rng) if which == "two" else c14.gen_quali_filter_case(rng)
         k = rng.choice(["perm_rows", "perm_cols", "rename_feat", "rename_cat" if a["quali"] else "negate"])
@@ -230,7 +234,8 @@ class C15(Prop):
                 + [gen_special_pair(rng, "two") for _ in range(8 * ns)]
                 + [gen_special_pair(rng, "filter") for _ in range(8 * ns)]
                 + [gen_pair(rng, rng.choice(["perm_x_only", "perm_y_only"])) for _ in range(24 * ns)]
-                + [gen_colsample_pair(rng) for _ in range(40 * ns)])
+                + [gen_colsample_pair(rng) for _ in range(40 * ns)]
+                + [gen_special_pair(rng, "tiny") for _ in range(12 * ns)])
 
     def search_cases(self, rng, neighbours, rnd):
         return [gen_pair(rng) for _ in range(50)]
